@@ -7,6 +7,7 @@ import (
 	"bytes"
 	"errors"
 	"fmt"
+	"io"
 	"runtime/debug"
 	"sort"
 	"strings"
@@ -98,9 +99,10 @@ func render(e *twig.Engine, name string, ctx map[string]interface{}) Res {
 
 func renderTo(e *twig.Engine, name string, ctx map[string]interface{}) Res {
 	return guard(func() (string, error) {
-		var b bytes.Buffer
-		err := e.RenderTo(&b, name, ctx)
-		return b.String(), err
+		// a writer that has only Write: the route taken for files, sockets and pipes
+		var w plainWriter
+		err := e.RenderTo(&w, name, ctx)
+		return w.b.String(), err
 	})
 }
 
@@ -125,3 +127,67 @@ func mismatch(format string, a ...interface{}) error {
 }
 
 func sortStrings(s []string) { sort.Strings(s) }
+
+// ---- writers that are not in-memory buffers ---------------------------------------------------------------
+
+// plainWriter has Write only: no WriteString, and none of the buffer types the engine knows.
+type plainWriter struct{ b bytes.Buffer }
+
+func (p *plainWriter) Write(d []byte) (int, error) { return p.b.Write(d) }
+
+// choppyWriter takes at most k bytes per call and says so (io.ErrShortWrite), as a writer with a
+// full buffer does.
+type choppyWriter struct {
+	b bytes.Buffer
+	k int
+}
+
+func (c *choppyWriter) Write(d []byte) (int, error) {
+	if len(d) <= c.k {
+		return c.b.Write(d)
+	}
+	c.b.Write(d[:c.k])
+	return c.k, io.ErrShortWrite
+}
+
+// brokenWriter fails for good after `limit` bytes.
+type brokenWriter struct {
+	n, limit int
+}
+
+func (b *brokenWriter) Write(d []byte) (int, error) {
+	if b.n+len(d) <= b.limit {
+		b.n += len(d)
+		return len(d), nil
+	}
+	took := b.limit - b.n
+	b.n = b.limit
+	return took, errors.New("harness: the writer is broken")
+}
+
+func renderPlain(e *twig.Engine, name string, ctx map[string]interface{}) Res {
+	return guard(func() (string, error) {
+		var w plainWriter
+		err := e.RenderTo(&w, name, ctx)
+		return w.b.String(), err
+	})
+}
+
+// writersAgree: what Render returned (want, successful) is also what RenderTo delivers into a
+// writer that has only Write; a writer that takes a few bytes per call receives a prefix of it,
+// and the whole of it when RenderTo reports no error.
+func writersAgree(mk func() *twig.Engine, name string, ctx map[string]interface{}, want Res) error {
+	if want.Failed() {
+		return nil
+	}
+	if rp := renderPlain(mk(), name, ctx); rp.Failed() || rp.Out != want.Out {
+		return fmt.Errorf("Render returns %s, RenderTo into a writer that has only a Write method delivers %v", q(trunc(want.Out)), rp)
+	}
+	cw := &choppyWriter{k: 7}
+	rc := guard(func() (string, error) { return "", mk().RenderTo(cw, name, ctx) })
+	got := cw.b.String()
+	if rc.Panic != "" || !strings.HasPrefix(want.Out, got) || (!rc.Failed() && got != want.Out) {
+		return fmt.Errorf("Render returns %s; a writer that takes 7 bytes per call received %s (RenderTo: %v)", q(trunc(want.Out)), q(trunc(got)), rc)
+	}
+	return nil
+}
